@@ -37,7 +37,7 @@ def session(rng):
     for i in range(rng.choice([2, 3])):
         w = None
         if rng.randrange(3) == 0:
-            w = (rng.choice(["KA", "KN", "KS"]), chan(rng), b"will%d" % i, rng.randrange(2) == 1)
+            w = (rng.choice(["KA", "KN", "KS"]), chan(rng) + rng.choice([b"", b"", b"?ttl=300", b"?ttl=0"]), b"will%d" % i, rng.randrange(2) == 1)
         s.conn("c%d" % (i + 1), will=w)
     n = 0
     for _ in range(rng.choice([10, 25, 40])):
